@@ -1036,6 +1036,16 @@ class ConvertInstance:
                             local_temporaries.add(root_id)
                             invalid_temporaries.discard(root_id)
 
+                    elif isinstance(stmt, ir.InlineCode) and isinstance(
+                        stmt.result, Temporary
+                    ):
+                        # the result of inline code is defined here like the
+                        # result of any other expression (and only here: in a
+                        # conditional body it might not be initialized afterwards)
+                        root_id = id(stmt.result._root)
+                        local_temporaries.add(root_id)
+                        invalid_temporaries.discard(root_id)
+
             return local_temporaries
 
         search_invalid_temporaries(ctx.code())
